@@ -69,4 +69,15 @@ TEXTS = {
                             "read records 'invalid encoding' at the byte's position exactly when the decoder returns the one-byte error rune and AllowInvalidUTF8 is off, never when it is on; offsets advance by the decoded width; the any matcher consumes an invalid byte; values are input slices. "
                             "The decoder model is tied to utf8.DecodeRune through the malformed-input stream."),
                 level_note=RT_NOTE),
+    "C07": dict(technique="Lean model of the analysis + independent Lean specification, differential against the real ast/builder code; kernel-checked witnesses",
+                design_ref="DESIGN.md §5 C07", engine="lean-mid",
+                level_text=("The real analysis (ast.NullableVisit/InitialNames, builder.ComputeLeftRecursives, called in-process with chosen visiting orders) is compared node by node (every Nullable flag, first graph, left-recursive set, leader, verdict) with the Lean model Mid, "
+                            "and its verdict with the independent Ford-style specification Mid.Spec.leftRec on generated grammars; every discrepancy is classified by which uncommitted repair of the model removes it (known findings D17, D18; D9 listed). "
+                            "Kernel-checked: the witnesses of the four repaired defects (accepted/falsely rejected before, decided like the specification now), the D17 witness and its would-be repair, direct left recursion is always seen. The general theorem detect = specification is not proved (false for the unchanged tree)."),
+                level_note=("Trusted: Lean kernel; Model/Mid.lean tied to the code by the mid stream; the specification is for grammars without throw/recover; the dynamic half of C07 (no same-position re-entry at run time for accepted grammars) is not decided here beyond the runtime budget/termination results of C16.")),
+    "C19": dict(technique="Lean theorem (visiting order is a function of the name set) + repeated in-process and fresh-process generation",
+                design_ref="DESIGN.md §5 C19", engine="lean-mid",
+                level_text=("Kernel-checked: sorting any permutation of the rule names yields the same list (C19_sorted_order_invariant), hence the repaired analysis computes the same flags, first graph, left-recursive set, leader and verdict for every map iteration order (C19_analysis_order_free); "
+                            "and the necessity of the repair: for the D16 witness two visiting orders give different leaders (C19_order_matters_without_sorting). Execution: every generated grammar is analysed 12 (40) times in one process under Go's randomised map order, all outcomes identical and equal to the model's; Makefile generation rules are re-run in fresh processes and compared byte for byte."),
+                level_note=("Trusted: Lean kernel; Model/Mid.lean tied by the mid stream; emission (builder.go writes rules in grammar order, no map iteration) and the optimizer's maps are covered by execution only.")),
 }
